@@ -63,6 +63,10 @@ SCENARIOS = {
     'listener-kill-on-running2': {'program': MAIN, 'schedule': [], 'listener': [{'on': 'on_process_running', 'occ': 2, 'do': ['kill', 'lk']}]},
     'listener-kill-on-waiting': {'program': MAIN, 'schedule': [], 'listener': [{'on': 'on_process_waiting', 'occ': 1, 'do': ['kill', 'lk']}]},
     'listener-pause-on-waiting': {'program': MAIN, 'schedule': [['tick', 3], ['play'], ['tick', 1], ['resume', 7]], 'listener': [{'on': 'on_process_waiting', 'occ': 1, 'do': ['pause', 'lp']}]},
+    # a listener answers the paused notification with play() (and the played one with a new pause): the hooks of that
+    # nested request run inside the hook of the request that is being carried out
+    'listener-play-on-paused': {'program': MAIN, 'schedule': [['tick', 1], ['pause', 'pm'], ['tick', 2], ['play'], ['tick', 1], ['resume', 7]], 'listener': [{'on': 'on_process_paused', 'occ': 1, 'do': ['play', None]}]},
+    'listener-pause-on-played': {'program': MAIN, 'schedule': [['tick', 1], ['pause', 'pm'], ['tick', 2], ['play'], ['tick', 2], ['play'], ['tick', 1], ['resume', 7]], 'listener': [{'on': 'on_process_played', 'occ': 1, 'do': ['pause', 'again']}]},
     'hook-kill-in-on-run': {'program': ASYNC, 'schedule': [], 'hooks': [{'hook': 'on_run', 'occ': 2, 'pos': 'pre', 'do': ['kill', 'hk']}]},
     'hook-kill-in-on-wait': {'program': MAIN, 'schedule': [], 'hooks': [{'hook': 'on_wait', 'occ': 1, 'pos': 'post', 'do': ['kill', 'hk']}]},
     # the process has a loop of its own (not the thread's default loop, which never runs) and is controlled from
@@ -307,6 +311,10 @@ def execute(case):
                 v('pause-hook-fault-not-reported', 'no pause()/play() call raised the fault or returned a future carrying it')
             if views['state'] == 'excepted' and views['exception'][1] is exc:
                 v('pause-hook-fault-excepted', 'the process ended EXCEPTED with the fault of a pause/play hook')
+            elif views['state'] == 'excepted' and ref['state'] != 'excepted':
+                # ... or with anything else: the fault went to whoever made the request, the process itself goes on as in
+                # the fault-free run
+                v('pause-hook-fault-excepted', f"the process ended EXCEPTED with {views['exception'][1]!r} after a pause/play hook failed (fault-free run: {ref['state']})")
             elif not views['terminated']:
                 v('pause-hook-fault-stuck', f"process did not terminate after the fault (state {views['state']}, paused={views['paused']})")
         else:
